@@ -988,6 +988,8 @@ func writesFreeVar(fn *ssa.Function, fv *ssa.FreeVar) bool {
 }
 
 func (ex *Exec) execSelect(fr *Frame, st *State, in *ssa.Select) *Value {
+	// at select[#k] requires / set: clauses attached to reaching this select statement
+	ex.atObligations(fr, st, "select", in, map[string]*Value{})
 	tb := ex.tb
 	tt := in.Type().(*types.Tuple)
 	n := len(in.States)
